@@ -103,6 +103,45 @@ pub fn apply_set(engine: &mut Engine, base: &Engine, st: &Value) {
         "thr" => c.set_msd_threshold(s, if two { 0.3 } else { 0.5 }),
         "gvw" => c.set_gv_weight(s, if two { 0.6 } else { 1.0 }),
         "align" => c.set_phoneme_alignment_flag(two),
+        // interpolation weights of the voice set: value 1 writes the loaded defaults back THROUGH THE SETTERS (same values, another
+        // history), value 2 writes other weights (a single voice admits only [1.0])
+        "iw" => {
+            let n = b.get_interporation_weight().get_duration().len();
+            let ns = base.voices.global_metadata().num_streams;
+            let alt: Vec<f64> = match n {
+                1 => vec![1.0],
+                2 => vec![0.75, 0.25],
+                _ => {
+                    let mut v = vec![0.0; n];
+                    v[0] = 0.5;
+                    v[1] = 0.25;
+                    v[2] = 0.25;
+                    v
+                }
+            };
+            let biw = b.get_interporation_weight();
+            let iw = c.get_interporation_weight_mut();
+            let ok = |r: Result<(), jbonsai::model::interporation_weight::WeightError>| r.unwrap_or_else(|e| die(&format!("interpolation weight setter rejected in-range weights: {}", e)));
+            if two {
+                ok(iw.set_duration(&alt));
+                for s in 0..ns {
+                    ok(iw.set_parameter(s, &alt));
+                    ok(iw.set_gv(s, &alt));
+                }
+            } else {
+                // (on the way, pass through a vertex so that "back to the default values" really is a history)
+                let mut vertex = vec![0.0; n];
+                vertex[n - 1] = 1.0;
+                ok(iw.set_duration(&vertex));
+                ok(iw.set_duration(&biw.get_duration().to_vec()));
+                for s in 0..ns {
+                    ok(iw.set_parameter(s, &vertex));
+                    ok(iw.set_parameter(s, &biw.get_parameter(s).to_vec()));
+                    ok(iw.set_gv(s, &vertex));
+                    ok(iw.set_gv(s, &biw.get_gv(s).to_vec()));
+                }
+            }
+        }
         f => die(&format!("unknown field {}", f)),
     }
 }
@@ -239,7 +278,9 @@ pub fn replay(cases_path: &str, out_path: &str, voice_path: &str) {
     let cases = read_jsonl(cases_path);
     let corpus = Corpus::load();
     let utts = utterances(&corpus);
-    let base = Engine::load(&[voice_path]).unwrap_or_else(|e| die(&format!("{}: {}", voice_path, e)));
+    // (a comma-separated list loads a voice set)
+    let paths: Vec<&str> = voice_path.split(',').collect();
+    let base = Engine::load(&paths).unwrap_or_else(|e| die(&format!("{}: {}", voice_path, e)));
     let results = par_map(&cases, |_, case| match guarded(|| replay_case(&base, case, &utts)) {
         Ok(r) => r,
         Err(p) => (Some((0, format!("panic:{}", p), p)), (HashMap::new(), HashMap::new(), HashMap::new())),
